@@ -314,4 +314,27 @@ PROPS["C08"] = dict(
                "union tokens, duplicate detection, CompleteFullSync) is validated by the correspondence, not proved.",
 )
 
+PROPS["C04"] = dict(
+    modules=["Hub.Props.C04"],
+    gens=["store-c04"],
+    rule=STORE_RULE + "with dataset create/delete/rename, in which about a third of the state-changing operations run in a CHILD PROCESS with one crash point armed: tools/instr inserts a point "
+         "after every durable step (StoreEntitiesWithTransaction, commitIDTxn, txn.Commit, updateDataset, storeValue, moveValue, deleteValueAndStoreObject, storeEntity) of copies of "
+         "StoreEntities, ExecuteTransaction, CreateDataset, UpdateDataset, DeleteDataset (mapped over the originals with -overlay), the child kills itself with SIGKILL at the first or second hit "
+         "(second = the nested store of the meta entity / the second dataset of a transaction); the parent reopens the store, determines whether the operation landed, and the history continues "
+         "with queries (listings, feeds with tokens as ranks, lookups now and pinned, both query directions), more writes and more crashes; the model answers from h or h++[op] — nothing in "
+         "between is accepted — and predicts from the regenerated step order which of the two it must be; non-trivial = at least one child actually died",
+    trusted=STORE_TRUST + ["badger's atomic durable commit and recovery after SIGKILL (the OS keeps the page cache: a process kill, not a power loss)",
+                           "tools/instr (go/ast rewriter): inserts calls only, after whole statements and their error checks; the copies are compiled instead of the originals for every harness build"],
+    assumptions=["a crash inside a badger commit is badger's business (atomic by contract)", "job-token crash points (sink write vs token store) are decided under C08"],
+    level_text="Proof: for a call whose keys are committed by one data step, a crash at any point leaves the committed data as it was or with the whole batch appended (all_or_nothing), a call that "
+               "returned is present (acknowledged_present), and when the id transaction is committed before the data transaction no committed key mentions an internal id without a committed "
+               "uri<->id row at any crash point (ids_before_data; data_before_ids_breaks_cover shows the order matters); instantiated with the step order of StoreEntities and ExecuteTransaction "
+               "as tools/instr finds it in the source on every run (facts_step_order, write_calls_atomic). Regenerated facts: one writable transaction per call created outside every loop, the "
+               "write loop writes only to the transaction it was handed, unconditional commitIDTxn before txn.Commit, error checks after every step (facts_one_transaction). badger's Sequence "
+               "as a lease automaton hands out strictly increasing numbers over any history of opens, Next calls, releases and crashes (seq_no_reuse): change positions and internal ids are "
+               "never reused. The real hub is killed at every instrumented point of generated histories and compared after restart with the model.",
+    level_note="Trusted: Lean kernel, tools/instr, factgen, badger's commit atomicity and durability. The step model is abstract (ids, batches); that the key-level content of a landed batch is "
+               "right is C01-C03's refinement, re-checked here by the queries after every restart.",
+)
+
 NOT_YET = {}
